@@ -93,21 +93,26 @@ def ingest(name, wt, prop, needs):
 
 
 def run(name, props, extra):
+    """Apply the change to a scratch copy of /repo/bellows (outside /repo and /verif) and run the checks against it
+    through VERIF_REPO: equivalent to `git -C /repo apply` + check + `git -C /repo checkout -- .`, without disturbing
+    background runs that read /repo."""
+    import shutil
+    import tempfile
+
     d = os.path.join(SEEDED, name)
     meta = json.load(open(os.path.join(d, "meta.json")))
     props = props or [meta["breaks_property"]]
-    rc, out = sh(["git", "-C", "/repo", "status", "--porcelain", "--untracked-files=no"])
-    if out.strip():
-        print("refusing: /repo has uncommitted changes\n" + out)
-        return 2
     pf = os.path.join(d, "patch.rebased.diff") if os.path.exists(os.path.join(d, "patch.rebased.diff")) else os.path.join(d, "patch.diff")
-    rc, out = sh(["git", "-C", "/repo", "apply", pf])
-    if rc:
-        print("patch does not apply:", out)
-        return 2
+    scratch = tempfile.mkdtemp(prefix="bellows-seeded-")
     try:
+        shutil.copytree("/repo/bellows", os.path.join(scratch, "bellows"))
+        rc, out = sh(["git", "apply", pf], cwd=scratch)
+        if rc:
+            print("patch does not apply:", out)
+            return 2
+        env = dict(os.environ, VERIF_REPO=scratch)
         for prop in props:
-            rc, out = sh([os.path.join(VERIF, "check"), prop, "--no-evidence"] + extra, cwd=VERIF, timeout=3600)
+            rc, out = sh([os.path.join(VERIF, "check"), prop, "--no-evidence"] + extra, cwd=VERIF, env=env, timeout=3600)
             caught = rc == 1 and f"VIOLATION property={prop}" in out
             lines = [l for l in out.splitlines() if l.startswith("clause=")]
             summ = [l for l in out.splitlines() if l.startswith(prop + " ")]
@@ -122,7 +127,7 @@ def run(name, props, extra):
                     if os.path.exists(rp) and os.path.basename(rp) not in open(os.path.join(VERIF, "known_findings.json")).read():
                         os.remove(rp)
     finally:
-        sh(["git", "-C", "/repo", "checkout", "--", "."])
+        shutil.rmtree(scratch, ignore_errors=True)
     json.dump(meta, open(os.path.join(d, "meta.json"), "w"), indent=1)
     return 0
 
